@@ -252,6 +252,32 @@ def andFolds : E → Bool
   | named _ v _ => andFolds v
   | tup a b _ => andFolds a || andFolds b
 
+/-! ## values over the integers (for the semantic theorem about `invert`) -/
+
+def b2i (b : Bool) : Int := if b then 1 else 0
+
+/-- `l op r` on integers, as 0 / 1; `none` for the operators outside the fragment -/
+def cmpZ : Cop → Int → Int → Option Int
+  | .eq, a, b => some (b2i (a == b)) | .ne, a, b => some (b2i (a != b))
+  | .lt, a, b => some (b2i (decide (a < b))) | .le, a, b => some (b2i (decide (a ≤ b)))
+  | .gt, a, b => some (b2i (decide (a > b))) | .ge, a, b => some (b2i (decide (a ≥ b)))
+  | _, _, _ => none
+
+def evalZ (env : String → Int) : E → Option Int
+  | atom n _ => some (env n)
+  | neg x _ => (evalZ env x).map (- ·)
+  | lnot x _ => (evalZ env x).map fun v => b2i (v == 0)
+  | bin .arith l r _ => do let a ← evalZ env l; let b ← evalZ env r; pure (a + b)
+  | bin .and l r _ => do let a ← evalZ env l; let b ← evalZ env r; pure (if a == 0 then a else b)
+  | bin .or l r _ => do let a ← evalZ env l; let b ← evalZ env r; pure (if a != 0 then a else b)
+  | cmp o l r _ => do let a ← evalZ env l; let b ← evalZ env r; cmpZ o a b
+  | chain l o₁ x o₂ r _ => do
+      let a ← evalZ env l; let b ← evalZ env x; let c ← evalZ env r
+      let u ← cmpZ o₁ a b; let v ← cmpZ o₂ b c
+      pure (if u == 0 then u else v)
+  | ifx t c f _ => do let tv ← evalZ env t; let cv ← evalZ env c; let fv ← evalZ env f; pure (if cv != 0 then tv else fv)
+  | _ => none
+
 /-! ## rendering (what libcst's code generator prints for the tree) -/
 
 def Cop.str : Cop → String
